@@ -24,20 +24,24 @@ def mc(ctx, inst, mode, avals="{0,3,8,13}", mutant="none", expect=None, workers=
     return r
 
 
-def replay(ctx, inst, tag, be, kind, kinds, seed, tol=256, take=1):
-    """run h_boot replay on the instance, keep rows of the given kinds (every take-th), validate with Table_C04"""
+def replay(ctx, inst, tag, be, kind, kinds, seed, tol=256, take=1, before=None):
+    """run h_boot replay on the instance (optionally after another instance `before` = (inst, tag) in the same process),
+    keep rows of the given kinds (every take-th), validate with Table_C04"""
     txt = ringdump.dump_instance(ctx, inst, tag)
+    files = [txt]
+    if before:
+        files = [ringdump.dump_instance(ctx, before[0], before[1]), txt]
     exe = build.harness("h_boot", be, kind)
     raw = os.path.join(ctx.dir, "replay-%s-%s-%s.raw" % (tag, be, kind))
     with open(raw, "w") as f:
-        rc, _, err = sh([exe, "replay", txt, "--seed", str(seed), "--only", ",".join("boot" if k.startswith("boot") else k for k in kinds)], stdout=f, timeout=3000)
+        rc, _, err = sh([exe, "replay"] + files + ["--seed", str(seed), "--only", ",".join("boot" if k.startswith("boot") else k for k in kinds)], stdout=f, timeout=3000)
     if rc != 0:
         return {"crash": "h_boot replay died rc=%s %s" % (rc, err[-300:])}, None
     rows = os.path.join(ctx.dir, "replay-%s-%s-%s.ndjson" % (tag, be, kind))
     n = 0
     with open(rows, "w") as out:
         for k, ln in enumerate(open(raw)):
-            if any(('"k":"%s"' % kk) in ln for kk in kinds) and (k % take == 0):
+            if ('"inst":"%s"' % txt) in ln and any(('"k":"%s"' % kk) in ln for kk in kinds) and (k % take == 0):
                 out.write(ln); n += 1
     c = dict(inst); c["Tol"] = tol
     r = tlc.run_tlc("Table_C04", env={"TRACE": rows}, constants=c, workdir=ctx.dir, timeout=3000)
